@@ -641,15 +641,6 @@ where
     /// # Safety
     /// `entity_allocator` must contain entries for the entities stored in the archetype.
     pub(crate) unsafe fn clear(&mut self, entity_allocator: &mut entity::Allocator<R>) {
-        // Clear each column.
-        // SAFETY: `self.components` has the same number of values as there are set bits in
-        // `self.identifier`. Also, each element in `self.components` defines a `Vec<C>` of size
-        // `self.length` for each `C` identified by `self.identifier`.
-        //
-        // The `R` over which `self.identifier` is generic is the same `R` on which this function
-        // is being called.
-        unsafe { R::clear_components(&mut self.components, self.length, self.identifier.iter()) };
-
         // Free each entity.
         let mut entity_identifiers = ManuallyDrop::new(
             // SAFETY: `self.entity_identifiers` is guaranteed to contain the raw parts for a valid
@@ -669,7 +660,20 @@ where
         }
         entity_identifiers.clear();
 
+        // The rows are gone from here on, whatever happens while the components are dropped: if
+        // a component's `Drop` implementation panics, the values that were not dropped yet are
+        // leaked instead of being dropped a second time when the archetype is dropped.
+        let length = self.length;
         self.length = 0;
+
+        // Clear each column.
+        // SAFETY: `self.components` has the same number of values as there are set bits in
+        // `self.identifier`. Also, each element in `self.components` defines a `Vec<C>` of size
+        // `length` for each `C` identified by `self.identifier`.
+        //
+        // The `R` over which `self.identifier` is generic is the same `R` on which this function
+        // is being called.
+        unsafe { R::clear_components(&mut self.components, length, self.identifier.iter()) };
     }
 
     /// Clear the archetype as a detached entity.
@@ -678,18 +682,23 @@ where
     /// entities from an `entity::Allocator`. It is for use in contexts such as
     /// `Clone::clone_from()`.
     pub(crate) fn clear_detached(&mut self) {
+        // Note that we don't need to touch the entity identifiers in this case. Setting the length
+        // to `0` is sufficient because the entity identifiers are `Copy`.
+        //
+        // The length is set before the components are dropped: if a component's `Drop`
+        // implementation panics, the values that were not dropped yet are leaked instead of being
+        // dropped a second time when the archetype is dropped.
+        let length = self.length;
+        self.length = 0;
+
         // Clear each column.
         // SAFETY: `self.components` has the same number of values as there are set bits in
         // `self.identifier`. Also, each element in `self.components` defines a `Vec<C>` of size
-        // `self.length` for each `C` identified by `self.identifier`.
+        // `length` for each `C` identified by `self.identifier`.
         //
         // The `R` over which `self.identifier` is generic is the same `R` on which this function
         // is being called.
-        unsafe { R::clear_components(&mut self.components, self.length, self.identifier.iter()) };
-
-        // Note that we don't need to touch the entity identifiers in this case. Setting the length
-        // to `0` is sufficient because the entity identifiers are `Copy`.
-        self.length = 0;
+        unsafe { R::clear_components(&mut self.components, length, self.identifier.iter()) };
     }
 
     /// Decrease the allocated capacity for the component columns and entity identifier column.
